@@ -7,26 +7,30 @@ use std::rc::Rc;
 const A: usize = 0;
 const B: usize = 1;
 
-/// a<->b built, DC a with certificate, then DC a again (answered from the cache)
-static H_CO_1: [Event; 6] = [(0, A, 0, false), (0, B, 0, false), (2, A, B, false), (2, B, A, false), (4, A, 0, true), (4, A, 0, true)];
-/// a<->b, DC b, the attack a->b removed, DC a (no longer acceptable: b attacks it, nothing defends it)
-static H_CO_2: [Event; 7] = [(0, A, 0, false), (0, B, 0, false), (2, A, B, false), (2, B, A, false), (4, B, 0, false), (3, A, B, false), (4, A, 0, true)];
-/// a->b, DS b with certificate, b removed and re-added under a new id, DS b with certificate
-static H_ST_1: [Event; 7] = [(0, A, 0, false), (0, B, 0, false), (2, A, B, false), (5, B, 0, true), (1, B, 0, false), (0, B, 0, false), (5, B, 0, true)];
-/// self-attacker: no stable extension (DC NO, DS YES), repaired by removing the attack
-static H_ST_2: [Event; 6] = [(0, A, 0, false), (2, A, A, false), (4, A, 0, true), (5, A, 0, true), (3, A, A, false), (4, A, 0, true)];
-/// a, b; DC a caches {a,b} as accepted; b->a added: the cache must not answer DC a any more
-static H_ST_3: [Event; 5] = [(0, A, 0, false), (0, B, 0, false), (4, A, 0, true), (2, B, A, false), (4, A, 0, false)];
-/// a->b, DC b (NO), the attacker a removed, DC b (YES): the attacked argument must be re-encoded
-static H_CO_4: [Event; 6] = [(0, A, 0, false), (0, B, 0, false), (2, A, B, false), (4, B, 0, false), (1, A, 0, false), (4, B, 0, true)];
-static H_ST_4: [Event; 6] = [(0, A, 0, false), (0, B, 0, false), (2, A, B, false), (5, B, 0, true), (1, A, 0, false), (5, B, 0, true)];
-/// redundant and invalid updates interleaved with queries (C09)
-static H_CO_BAD: [Event; 8] = [(1, A, 0, false), (0, A, 0, false), (0, A, 0, false), (2, A, B, false), (0, B, 0, false), (2, B, A, false), (2, B, A, false), (4, A, 0, true)];
-static H_ST_BAD: [Event; 8] = [(3, A, A, false), (0, A, 0, false), (0, B, 0, false), (0, A, 0, false), (2, A, B, false), (1, B, 0, false), (1, B, 0, false), (5, A, 0, true)];
+// Every history below keeps all queries but the last one UNSATISFIABLE for the backend (credulous NO / skeptical YES):
+// measured, a second query after a query that returned a (symbolic) model makes CBMC run for more than 30 minutes,
+// whereas a history whose only symbolic model is the last one costs about as much as one static query.
+
+/// a->b; DC b is NO (the attack gets encoded); the attacker a is removed; DC b must now be YES with certificate {b}
+static H_CO_RMATTACKER: [Event; 6] = [(0, A, 0, false), (0, B, 0, false), (2, A, B, false), (4, B, 0, false), (1, A, 0, false), (4, B, 0, true)];
+static H_ST_RMATTACKER: [Event; 6] = [(0, A, 0, false), (0, B, 0, false), (2, A, B, false), (4, B, 0, true), (1, A, 0, false), (4, B, 0, true)];
+/// a->b; DC b NO; the attack is removed; DC b YES
+static H_CO_RMATTACK: [Event; 6] = [(0, A, 0, false), (0, B, 0, false), (2, A, B, false), (4, B, 0, true), (3, A, B, false), (4, B, 0, true)];
+/// a->b; b removed and re-added under a new id (no attack any more); DS b must be YES... asked as DC with certificate {a,b}
+static H_ST_READD: [Event; 6] = [(0, A, 0, false), (0, B, 0, false), (2, A, B, false), (1, B, 0, false), (0, B, 0, false), (4, B, 0, true)];
+/// self-attacker: no stable extension (DC a NO); the self-attack is removed: DC a YES
+static H_ST_SELF: [Event; 5] = [(0, A, 0, false), (2, A, A, false), (4, A, 0, true), (3, A, A, false), (4, A, 0, true)];
+/// a, b, b->a; DS a is NO with certificate {b} (single query, skeptical path with a model)
+static H_ST_DS: [Event; 4] = [(0, A, 0, false), (0, B, 0, false), (2, B, A, false), (5, A, 0, true)];
+/// a<->b built step by step, DC a YES with certificate {a}
+static H_CO_MUTUAL: [Event; 5] = [(0, A, 0, false), (0, B, 0, false), (2, A, B, false), (2, B, A, false), (4, A, 0, true)];
+/// redundant and invalid updates, one query at the end (C09)
+static H_CO_BAD: [Event; 9] = [(1, A, 0, false), (0, A, 0, false), (0, A, 0, false), (2, A, B, false), (0, B, 0, false), (2, B, A, false), (2, B, A, false), (3, A, B, false), (4, B, 0, true)];
+static H_ST_BAD: [Event; 9] = [(3, A, A, false), (0, A, 0, false), (0, B, 0, false), (0, A, 0, false), (2, A, B, false), (1, B, 0, false), (1, B, 0, false), (2, A, B, false), (5, A, 0, false)];
 /// three labels: the most recent argument is removed, an existing one re-declared, a new one created and queried
 const C: usize = 2;
 static H_CO_BAD3: [Event; 6] = [(0, A, 0, false), (0, B, 0, false), (1, B, 0, false), (0, A, 0, false), (0, C, 0, false), (4, C, 0, true)];
-static H_ST_BAD3: [Event; 7] = [(0, A, 0, false), (0, B, 0, false), (2, B, A, false), (1, B, 0, false), (0, A, 0, false), (0, C, 0, false), (5, C, 0, true)];
+static H_ST_BAD3: [Event; 7] = [(0, A, 0, false), (0, B, 0, false), (2, B, A, false), (1, B, 0, false), (0, A, 0, false), (0, C, 0, false), (4, C, 0, true)];
 
 fn run<const WORDS: usize>(which: Dyn, events: &'static [Event], allow_bad: bool) {
     let sh = Rc::new(Shared::default());
@@ -47,15 +51,15 @@ macro_rules! dynamic_harness {
     };
 }
 
-dynamic_harness!(c08_q_complete_h1, Dyn::Complete, H_CO_1, false, 10, 2);
-dynamic_harness!(c08_q_stable_h3, Dyn::Stable, H_ST_3, false, 10, 2);
-dynamic_harness!(c08_q_complete_h4, Dyn::Complete, H_CO_4, false, 10, 2);
-dynamic_harness!(c08_t_stable_h4, Dyn::Stable, H_ST_4, false, 10, 2);
-dynamic_harness!(c08_t_complete_h2, Dyn::Complete, H_CO_2, false, 10, 2);
-dynamic_harness!(c08_t_stable_h1, Dyn::Stable, H_ST_1, false, 10, 2);
-dynamic_harness!(c08_t_stable_h2, Dyn::Stable, H_ST_2, false, 10, 2);
-dynamic_harness!(c08_t_dummy_st_h3, Dyn::DummySt, H_ST_3, false, 10, 2);
+dynamic_harness!(c08_q_complete_rmattacker, Dyn::Complete, H_CO_RMATTACKER, false, 10, 2);
+dynamic_harness!(c08_q_stable_rmattacker, Dyn::Stable, H_ST_RMATTACKER, false, 10, 2);
+dynamic_harness!(c08_q_stable_ds, Dyn::Stable, H_ST_DS, false, 10, 2);
+dynamic_harness!(c08_q_complete_mutual, Dyn::Complete, H_CO_MUTUAL, false, 10, 2);
+dynamic_harness!(c08_t_complete_rmattack, Dyn::Complete, H_CO_RMATTACK, false, 10, 2);
+dynamic_harness!(c08_t_stable_readd, Dyn::Stable, H_ST_READD, false, 10, 2);
+dynamic_harness!(c08_t_stable_self, Dyn::Stable, H_ST_SELF, false, 10, 2);
+dynamic_harness!(c08_t_dummy_st_rmattacker, Dyn::DummySt, H_ST_RMATTACKER, false, 10, 2);
 dynamic_harness!(c09_q_complete_bad, Dyn::Complete, H_CO_BAD, true, 10, 2);
 dynamic_harness!(c09_q_stable_bad3, Dyn::Stable, H_ST_BAD3, true, 10, 4);
+dynamic_harness!(c09_q_complete_bad3, Dyn::Complete, H_CO_BAD3, true, 10, 4);
 dynamic_harness!(c09_t_stable_bad, Dyn::Stable, H_ST_BAD, true, 10, 2);
-dynamic_harness!(c09_t_complete_bad3, Dyn::Complete, H_CO_BAD3, true, 10, 4);
